@@ -410,6 +410,10 @@ type c06Scenario struct {
 func c06Constructs(cls, nest, kind, exit string) []string {
 	switch cls {
 	case "loop":
+		if nest != "none" && exit != "break" && exit != "return" {
+			// the inner iteration may also be a comprehension or a built-in with a callback
+			return []string{"for", "for-comp", "for-sorted"}
+		}
 		return []string{"for"}
 	case "comp":
 		if nest != "none" {
@@ -469,6 +473,22 @@ def run(X, Y):
         if r == "break": break
         if r == "return": return "ret"
         if r == "callerr": fails()
+    after()
+    return "done"
+`
+		} else if e.conc == "for-comp" {
+			b = `
+def run(X, Y):
+    for e in X:
+        t = [act(body(f)) for f in ` + inner + `]
+    after()
+    return "done"
+`
+		} else if e.conc == "for-sorted" {
+			b = `
+def run(X, Y):
+    for e in X:
+        t = sorted(` + inner + `, key = lambda f: act(body(f)))
     after()
     return "done"
 `
